@@ -209,9 +209,11 @@ Lemma T_check_gas_sound :
      Rabs (Q2R phi * Q2R p - Rpower 10 (Q2R si)) <= Q2R tol * Q2R P) /\
   (forall tol P l, check_reaches tol P l = true -> Q2R P * (1 - Q2R tol) <= peq_sum_R l) /\
   (forall tol P l, check_below tol P l = true -> peq_sum_R l <= Q2R P * (1 + Q2R tol)) /\
-  (forall Rg T P m cs, check_three_roots Rg T P m cs = true -> 0 < disc_R Rg T P m cs).
+  (forall Rg T P m cs, check_three_roots Rg T P m cs = true -> 0 < disc_R Rg T P m cs) /\
+  (forall Rg T V m cs, check_three_roots_at_V Rg T V m cs = true -> 0 < disc_Rg Rg T (P_eos_R Rg T V m cs) m cs) /\
+  (forall Rg T V m cs, check_nonpositive_pressure_at_V Rg T V m cs = true -> P_eos_R Rg T V m cs <= 0).
 Proof.
-  exact ((conj check_eos_any_sound (conj check_ideal_any_sound (conj check_phi_sound (conj check_phi_at_sound (conj check_clamped_sound (conj check_partial_sound (conj check_partial_floor_sound (conj check_psum_sound (conj check_fug_sound (conj check_fug_floor_sound (conj check_reaches_sound (conj check_below_sound check_three_roots_sound))))))))))))).
+  exact ((conj check_eos_any_sound (conj check_ideal_any_sound (conj check_phi_sound (conj check_phi_at_sound (conj check_clamped_sound (conj check_partial_sound (conj check_partial_floor_sound (conj check_psum_sound (conj check_fug_sound (conj check_fug_floor_sound (conj check_reaches_sound (conj check_below_sound (conj check_three_roots_sound (conj check_three_roots_at_V_sound check_nonpositive_pressure_at_V_sound))))))))))))))).
 Qed.
 
 Lemma T_cardano_and_trigonometric_roots_partial :
